@@ -284,6 +284,10 @@ def _write_revisions(s: SeedDoc, objs: Dict[int, Any], extra: Dict[str, Any]) ->
     pf = s.objs.get("prev_fault")
     if pf == "prevcycle":
         t1["Prev"] = Raw(b"@PREVPOS2@")        # patched below (fixed width)
+    if pf == "stmcycle":
+        t1["XRefStm"] = Raw(b"@PREVPOS2@")     # first section --XRefStm--> second --Prev--> first
+    if pf == "stmprev":
+        t1["Prev"] = Raw(b"@PREVPOS2@")        # second --XRefStm--> first --Prev--> second
     out += b"trailer\n" + W.ser(t1) + b"\nstartxref\n%d\n%%%%EOF\n" % xpos1
     offs2: Dict[int, int] = {}
     for n in s.second:
@@ -299,6 +303,11 @@ def _write_revisions(s: SeedDoc, objs: Dict[int, Any], extra: Dict[str, Any]) ->
     t2.update(extra)
     if pf == "prevself":
         t2["Prev"] = xpos2
+    if pf == "stmself":
+        t2["XRefStm"] = xpos2                  # XRefStm pointing at the table that contains it
+    if pf == "stmprev":
+        t2["XRefStm"] = xpos1
+        del t2["Prev"]
     t2 = _apply_over(t2, s.trailer_over)
     out += b"trailer\n" + W.ser(t2) + b"\nstartxref\n%d\n%%%%EOF\n" % xpos2
     return bytes(out).replace(b"@PREVPOS2@", b"%010d" % xpos2)
@@ -493,7 +502,7 @@ def enumerate_faults(s: SeedDoc, rich: bool = False) -> List[Dict[str, Any]]:
             if ckind == "dict":
                 faults.append(dict(base, kind="remove", path=path, was=t, container=ckind))
             if t == "ref":
-                for how in ("self", "container", "missing", "cycle2"):
+                for how in ("self", "container", "missing", "cycle2", "rho"):
                     faults.append(dict(base, kind="ref", path=path, how=how, was=t, container=ckind))
         if isinstance(v, Stream):
             ln = len(v.data)
@@ -505,7 +514,7 @@ def enumerate_faults(s: SeedDoc, rich: bool = False) -> List[Dict[str, Any]]:
                 faults.append(dict(base, kind="payload", how="junk", pos=pos, n=ln))
     if s.layout == "revisions":
         # Prev is a reference by byte offset: point it at its own section / into a 2-cycle
-        for how in ("prevself", "prevcycle"):
+        for how in ("prevself", "prevcycle", "stmself", "stmcycle", "stmprev"):
             faults.append({"target": "trailer", "obj": None, "kind": "ref", "path": ["Prev"], "how": how,
                            "was": "int", "container": "dict"})
     if s.layout == "xrefstm":
@@ -565,13 +574,19 @@ def apply_fault(seed: SeedDoc, f: Dict[str, Any]) -> bytes:
                 newobjs[fresh] = Ref(fresh + 1)
                 newobjs[fresh + 1] = Ref(fresh)
                 return Ref(fresh)
+            if how == "rho":
+                # a chain that leads INTO a cycle it is not part of: fresh -> fresh+1 -> fresh+2 -> fresh+1
+                newobjs[fresh] = Ref(fresh + 1)
+                newobjs[fresh + 1] = Ref(fresh + 2)
+                newobjs[fresh + 2] = Ref(fresh + 1)
+                return Ref(fresh)
             if how == "missing":
                 return Ref(top + 5)
             if how == "container":
                 return Ref(f["obj"] if f["obj"] is not None else s.root)
         raise ValueError(kind)
 
-    if kind == "ref" and f["how"] in ("prevself", "prevcycle"):
+    if kind == "ref" and f["how"] in ("prevself", "prevcycle", "stmself", "stmcycle", "stmprev"):
         s.objs["prev_fault"] = f["how"]
         return write_doc(s)
     if kind == "payload":
